@@ -318,6 +318,21 @@ func c06Fixed() ([]*zr.Program, []map[string]Val, []string) {
 			// in the main program: the handler of the program itself
 		}
 	}
+	// a method defined inside a method body is a declaration of that body like any other: gone
+	// when the body returns, so the outer method can be called again and again (and recursively)
+	inner := &zr.FuncDef{Name: "内", Params: []string{"数"}, Body: []zr.Stmt{zr.Return{E: zr.Bin{Op: "+", L: zr.N("数"), R: lit(1)}}}}
+	outer := &zr.FuncDef{Name: "外", Params: []string{"次"}, Body: []zr.Stmt{inner, show("in-outer", "次"), zr.Return{E: zr.CallE("内", zr.N("次"))}}}
+	add("nested-def/twice", nil, nil, outer, zr.Show(zr.S("r1"), zr.CallE("外", lit(1))), zr.Show(zr.S("r2"), zr.CallE("外", lit(2))), zr.Show(zr.S("r3"), zr.CallE("外", lit(3))))
+	add("nested-def/gone-after", nil, nil, outer, zr.Show(zr.S("r1"), zr.CallE("外", lit(1))), zr.Show(zr.S("leak?"), zr.CallE("内", lit(5))))
+	add("nested-def/gone-before", nil, nil, outer, zr.Show(zr.S("early?"), zr.CallE("内", lit(5))))
+	recOuter := &zr.FuncDef{Name: "外", Params: []string{"次"}, Body: []zr.Stmt{inner, show("in-outer", "次"),
+		zr.If{Cond: zr.Bin{Op: ">", L: zr.N("次"), R: lit(0)}, Then: []zr.Stmt{zr.Return{E: zr.CallE("外", zr.Bin{Op: "-", L: zr.N("次"), R: lit(1)})}}},
+		zr.Return{E: zr.CallE("内", zr.N("次"))}}}
+	add("nested-def/recursive", nil, nil, recOuter, zr.Show(zr.S("r"), zr.CallE("外", lit(3))))
+	add("nested-def/in-loop", nil, nil, outer, zr.Iter{Names: []string{"轮"}, Over: zr.ListLit{Items: []zr.Expr{lit(1), lit(2), lit(3)}}, Body: []zr.Stmt{zr.Show(zr.S("r"), zr.CallE("外", zr.N("轮")))}})
+	add("nested-def/after-exception", nil, nil, &zr.FuncDef{Name: "外", Params: []string{"次"}, Body: []zr.Stmt{inner, zr.Throw{Class: "异常", Args: []zr.Expr{zr.S("e")}}},
+		Catches: []zr.Catch{{Class: "异常", Body: []zr.Stmt{zr.Return{E: zr.CallE("内", zr.N("次"))}}}}},
+		zr.Show(zr.S("r1"), zr.CallE("外", lit(1))), zr.Show(zr.S("r2"), zr.CallE("外", lit(2))))
 	// predefined names
 	for _, n := range zr.Predefined {
 		add("predefined/assign/"+n, nil, nil, zr.Set(zr.N(n), lit(1)), show("not-reached"))
